@@ -125,7 +125,7 @@ def corpus(tier, seed):
         ns = rng.randint(1, 3)
         sl = _slates(rng, ns, SMALL if rng.random() < 0.8 else WIDE, 7)
         inputs.append({"kind": "combine", "slates": sl, "coh": dict(zip(BLOCN, [rat(x) for x in rng.choice(COH[ns])])), "fscale": rng.choice(SCALES)})
-    for _ in range(240 if q else 4000):
+    for _ in range(240 if q else 8000):
         nb = rng.randint(1, 3)
         model = rng.choice(["PL", "BT", "BT", "Cumulative"])
         big = rng.random() < (0.25 if model == "BT" else 0.5)
